@@ -257,8 +257,18 @@ def key_of(kind, opt, tok, ctx):
     return f"{kind}:{hx(t)}" + (":optional" if opt and t.startswith("$") else "")
 
 
+sq_verdicts = {}
+
+
 def evaluate(ctx, batch, real_cmd, model_cmd, env, problems, reasons):
     t0 = time.time()
+    if batch.label == "after-a-string":
+        # the Lean verdict of every bare token, asked once from the model driver
+        pairs = sorted({(mt[1], mt[4].lstrip(" \t\n\r\v\f")) for mt in batch.meta})     # leading blanks are layout
+        _, vo, _ = run_lines(model_cmd, [rd_line(k, 0, tk, ",") for k, tk in pairs])
+        for (k, tk), ln in zip(pairs, vo):
+            if " | " in ln:
+                sq_verdicts[(k, tk)] = ln.split(" | ")[1]
     ro, mo = run_both(real_cmd, model_cmd, batch.lines, env)
     nprob = 0
     for line, meta, r, m in zip(batch.lines, batch.meta, ro, mo):
@@ -378,6 +388,34 @@ def evaluate(ctx, batch, real_cmd, model_cmd, env, problems, reasons):
                 continue
             if r != parts[0]:
                 problems.append(("correspondence", line, f"impl {r!r} vs model {parts[0]!r}", None))
+                nprob += 1
+        elif meta[0] == "sq":
+            _, kind, opt, first, tok, c = meta
+            ctx.count(1, key=line)
+            ctx.hist("kind", "after-string-" + kind)
+            # the statement's oracle on the second attribute, with the Lean verdict of the bare token (asked from the model as
+            # for `rd`); `# 5`-like references are lenient forms only while skipws is on
+            rr = parse_r(r)
+            why = None
+            if r != m:
+                problems.append(("correspondence", line, f"impl {r!r} vs model {m!r}", None))
+                nprob += 1
+                continue
+            verdict = sq_verdicts.get((kind, tok.lstrip(" \t\n\r\v\f")))
+            if verdict is not None and c:
+                v = verdict.split()
+                stripped = tok.strip(" \t\n\r\v\f")
+                if v[1] == "G" and rr.get("first") == "NULL":
+                    if rr.get("sev") != "NULL" or rr.get("val") != v[2]:
+                        why = f"after a STRING attribute: grammar token {tok!r} of {kind} read as {rr.get('val')} ({rr.get('sev')})"
+                elif v[1] == "X" and not stripped.startswith("$") and stripped and rr.get("sev") in ("NULL", "USERMSG"):
+                    why = f"after a STRING attribute: token {tok!r} of {kind} (outside the grammar) read without error as {rr.get('val')}"
+            if why:
+                rs = ("sq-" + kind, reason_of(why))
+                if rs not in reasons:
+                    reasons[rs] = True
+                    problems.append(("property", f"SQ:{kind}:{hx(tok)}", why,
+                                     {"request": line, "implementation": r, "how": "feed `request` to harness/h_literals.cc"}))
                 nprob += 1
         elif meta[0] == "rdc":
             ctx.count(1, key=line)
@@ -642,6 +680,27 @@ def aggregate_batch(ctx, quick):
     return b
 
 
+def sequence_batch(ctx, quick):
+    """a STRING attribute, the `,`, then an attribute of every kind read from ONE stream: the second read starts in the middle
+    of the stream with `skipws` switched off (what SDAI_String::STEPread leaves behind) — the regime of the
+    C09_never_silent_*_anywhere / C09_accept_*_anywhere theorems.  Oracle: as for `rd` (the token's verdict), except that
+    with skipws off blanks between `#` and the id of a reference are no longer accepted."""
+    corp = corpus_tokens()
+    b = Batch("after-a-string")
+    firsts = ["'a'", "''", "'it''s'", "' , ) '"]
+    for kind in KINDS:
+        toks = corp.get(kind + "_valid", [])[:3 if quick else 8] + corp.get(kind, [])[:6 if quick else 40]
+        extra = {"REF": ["# 5", "#\t12", "#5", "@5", "#"], "INTEGER": [" 12", "+7", "-", "9223372036854775807"],
+                 "REAL": ["1.", ".5", "1.5E+3", "1e5", " 2.5"], "NUMBER": ["12", "1e5", ".5"], "STRING": ["'b'", "'"],
+                 "BINARY": ['"0A"', '""'], "BOOLEAN": [".T.", ".t.", "T"], "LOGICAL": [".U.", ".UNSET."], "ENUM": [".RED.", ".red.", ".R."]}
+        for tok in list(dict.fromkeys(toks + extra.get(kind, []))):
+            for f in firsts[:2 if quick else 4]:
+                for c in (",", " )", " /*c*/ ,", ""):
+                    for opt in (0, 1):
+                        b.raw(f"sq {kind} {opt} {hx(f)} {hx(tok + c) if tok + c else '-'}", ("sq", kind, opt, f, tok, c))
+    return b
+
+
 def stream_batch(ctx, quick):
     rng = ctx.rng
     b = Batch("istream-scripts")
@@ -723,7 +782,7 @@ def run(ctx):
     problems, reasons = [], {}
     sb = stream_batch(ctx, quick)
     evaluate(ctx, sb, [sx], model, None, problems, reasons)
-    for batch in literal_batches(ctx, quick) + [aggregate_batch(ctx, quick)]:
+    for batch in literal_batches(ctx, quick) + [aggregate_batch(ctx, quick), sequence_batch(ctx, quick)]:
         evaluate(ctx, batch, [exe], model, b.env(), problems, reasons)
     if ctx.tier == "thorough":
         # the same corpus + short exhaustive stream once more under ASan/UBSan (memory behaviour is observed, not modelled)
@@ -764,6 +823,8 @@ def replay(ctx, path):
         val = {"INTEGER": "i:" + w[2], "REAL": "r:" + w[2], "NUMBER": "r:" + w[2], "STRING": "s:" + w[2], "BINARY": "b:" + w[2],
                "REF": "#" + w[2]}.get(w[1], "e:" + w[2])
         bt.raw(line, ("wr", w[1], w[2], True, val))
+    elif w[0] == "sq":
+        bt.raw(line, ("sq", w[1], int(w[2]), unhx(w[3]).decode("latin-1"), unhx(w[4]).decode("latin-1") if w[4] != "-" else "", ""))
     elif w[0] == "ag":
         bt.raw(line, ("ag", w[1], unhx(w[2]).decode("latin-1"), None, True, False))
     else:
